@@ -7,6 +7,8 @@ mod entry_iter;
 mod memfs;
 mod path;
 mod stdfs;
+#[cfg(rivia_verif)]
+pub mod verif;
 mod vfs;
 
 pub use chmod::*;
